@@ -10,8 +10,16 @@ ENGINES = [
      "kind_free_text": "explicit-state BFS whose transitions are real setter calls on real objects; exact-state dedup; depth bound or fixpoint"},
 ]
 _PENDING = "check not built yet in this round (machinery under construction; see DESIGN.md section 3)"
-NOT_APPLICABLE = {p: _PENDING for p in ["C01", "C02", "C03", "C06", "C08", "C09", "C10", "C11", "C12", "C13", "C14", "C15", "C16", "C17", "C18"]}
+NOT_APPLICABLE = {p: _PENDING for p in ["C01", "C02", "C03", "C06", "C10", "C11", "C12", "C13", "C14", "C15", "C16", "C17", "C18"]}
 META = {
+    "C09": {"engine": "limit-enum", "design_ref": "3/C09",
+            "technique": "bounded exhaustive enumeration of (limit, input, base) triples and (limit, history) pairs on the real code; differential oracle against the unlimited run",
+            "text": "For every limit of the sweep and every enumerated input/base/setter history the result under the limit is compared with the unlimited result: bound on href length, mandatory atomic failure when the result would exceed L, identical behaviour when input and result fit.",
+            "note": "Limits up to 64 (+100, 1024) and the stated alphabets; bases longer than L are skipped."},
+    "C08": {"engine": "canparse-enum", "design_ref": "3/C08",
+            "technique": "bounded exhaustive enumeration of (input, base, limit) triples on the real code; differential oracle against parse()",
+            "text": "can_parse is compared with parse(base) && parse(input, base) on every pair of the stated token products, byte sweeps and IPv4-like hosts, without limit and under every limit of the stated sweep (0..48 and the n/3n/3(n+m) size edges).",
+            "note": "Oracle is the library's own parse (aggregator type); bounded by alphabet and length."},
     "C04": {"engine": "parse-enum + hist-bfs", "design_ref": "3/C04",
             "technique": "bounded exhaustive enumeration of inputs and explicit-state BFS of setter histories on the real code; differential oracle between the two URL types",
             "text": "Every (input, base) pair of the stated token/product/byte spaces and every setter history up to the stated depth (fixpoint in the thorough tier) is executed on both ada::url and ada::url_aggregator; return values and the full observation tuple incl. offsets, host kind, flags and href size must agree.",
